@@ -144,25 +144,48 @@ def pick(seq, n, rnd):
     return [seq[0]] + [seq[i] for i in idx]
 
 
-def pick_bases(name, mod, items, n, rnd, cap=6):
+def pick_bases(name, mod, items, n, rnd, cap=6, corpus_items=None):
     """pick(items, n) plus one VALID representative of every branch of the format that the corpus documents: numbers are
-    grouped by (length, class of the first character, class of the last character) of their canonical form and the first
-    of each group is added (at most cap groups).  Formats with several layouts (do.ncf: E.., B.., A.. numbers of three
-    lengths) are otherwise examined on the layouts of the first two corpus numbers only."""
+    grouped by (length, classes of the first three characters, class of the last character) of the presentation as written
+    without its separators (compact() or the canonical form would merge e.g. decimal and hexadecimal MEIDs) and the first of each group is added (at most cap
+    groups).  Formats with several layouts (do.ncf: E.., B.., A.. numbers of three lengths; old and new Irish VAT numbers)
+    are otherwise examined on the layouts of the first two corpus numbers only."""
     base = pick(items, n, rnd)
 
     def cls(ch):
         return 'd' if ch.isdigit() else 'A' if ch.isalpha() else ch
     groups = {}
-    for x in sorted(items, key=lambda z: (len(z), z)):
+    for x in sorted(corpus_items if corpus_items is not None else items, key=lambda z: (len(z), z)):
         try:
             v = mod.validate(x)
         except Exception:
             continue
-        if isinstance(v, str) and v:
-            groups.setdefault((len(v), cls(v[0]) if len(v) > 12 or not v[0].isalpha() else v[0], cls(v[-1])), x)
-    reps = [groups[k] for k in sorted(groups)][:cap]
+        # the presentation as written, separators dropped (compact() would merge e.g. decimal and hexadecimal MEIDs)
+        c = ''.join(ch for ch in x if ch.isalnum())
+        if isinstance(v, str) and v and c:
+            groups.setdefault((len(c), ''.join(cls(ch) for ch in c[:3]), cls(c[-1])), x)
+    keys = sorted(groups)
+    first = []                       # one group per distinct length first, then the other groups
+    for k in keys:
+        if k[0] not in [q[0] for q in first]:
+            first.append(k)
+    reps = [groups[k] for k in (first + [k for k in keys if k not in first])[:cap]]
     return base + [x for x in reps if x not in base]
+
+
+def literal_bases(mod, base, cap=4):
+    """base overwritten from the left by the alphanumeric string constants of the module's source (special prefixes such as
+    the SIREN of La Poste in fr.siret): these reach the branches that test for them; they need not be valid."""
+    from . import inputs
+    out = []
+    for L in inputs.literals(mod, minlen=2, maxlen=max(2, len(base) - 1)):
+        if L.isalnum() and L.isascii() and not base.startswith(L):
+            cand = L + base[len(L):]
+            if cand not in out:
+                out.append(cand)
+        if len(out) >= cap:
+            break
+    return out
 
 
 def distinct_compact(name, mod, items):
